@@ -234,7 +234,7 @@ func c20Dedupe(ps []c20Path) []c20Path {
 	return out
 }
 
-func c20Seq(a []c20Path, b []c20Path) []c20Path {
+func c20Cat(a []c20Path, b []c20Path) []c20Path {
 	var out []c20Path
 	for _, p := range a {
 		if p.term != "" {
@@ -250,13 +250,13 @@ func c20Seq(a []c20Path, b []c20Path) []c20Path {
 }
 
 func c20Prefix(toks []string, ps []c20Path) []c20Path {
-	return c20Seq([]c20Path{{toks: toks}}, ps)
+	return c20Cat([]c20Path{{toks: toks}}, ps)
 }
 
 func (x *c20Extractor) block(stmts []ast.Stmt) []c20Path {
 	cur := []c20Path{{}}
 	for _, s := range stmts {
-		cur = c20Seq(cur, x.stmt(s))
+		cur = c20Cat(cur, x.stmt(s))
 		if len(cur) > 4000 {
 			panic("c20: path explosion")
 		}
